@@ -16,6 +16,29 @@ class Check(RuntimeCheck):
     theorems = ['evalCall_reasons', 'C08_call_logs', 'C08_method_call_logs', 'C08_user_panic_not_recorded',
                 'C08_mock_panic_recorded', 'C08_teardown_forwards']
 
+    def extra(self, rep, tier, seed):
+        """swallowed mock-induced panics whose message is unusual to render (long non-ASCII Debug text, empty / multi-line
+        panics() message, emoji) must be remembered all the same: harness/src/bin/messages.rs `post` lines"""
+        import os, subprocess
+        from .. import engine
+        ok, log = engine.build_harness(['messages'])
+        if not ok:
+            path = engine.write_replay(self.prop, 'build', log + '\n', ["harness/src/bin/messages.rs no longer builds against /repo"])
+            rep.violation(path, "messages harness does not build against /repo", no_input=True)
+            return
+        p = subprocess.run([os.path.join(engine.HARNESS, 'target', 'debug', 'messages')], capture_output=True, text=True, timeout=300)
+        rows = [l.split('\t') for l in p.stdout.split('\n') if l.startswith('post\t')]
+        bad = [r for r in rows if len(r) < 5 or r[2] != 'remembered']
+        if p.returncode != 0 or not rows:
+            path = engine.write_replay(self.prop, 'toolerror', p.stderr[-2000:], ["messages harness crashed or printed no post lines"])
+            rep.violation(path, f"messages harness failed (exit {p.returncode})", no_input=True)
+        for r in bad[:2]:
+            path = engine.write_replay(self.prop, 'spec', '\t'.join(r) + '\n', [f"property C08 violated by the real code: the mock-induced panic of case {r[1]} was swallowed and verifying the original afterwards does not fail with its text",
+                                                                                f"induced : {r[3] if len(r) > 3 else ''}", f"verified: {r[4] if len(r) > 4 else ''}", "replay: /verif/harness/target/debug/messages | grep ^post"])
+            rep.violation(path, f"swallowed error of case {r[1]} not remembered: induced `{(r[3] if len(r) > 3 else '')[:120]}`, verification said `{(r[4] if len(r) > 4 else '')[:120]}`")
+        rep.coverage['post_verify_cases'] = len(rows)
+        rep.coverage['evaluations'] = rep.coverage.get('evaluations', 0) + len(rows)
+
     def rule(self):
         return ("histories in which every mock-induced error kind occurs at varying positions, on the original or on clones, on "
                 "the creator thread or on other threads (every panic is caught by the harness = swallowed), 1..n errors, mixed "
